@@ -203,6 +203,7 @@ package bytesconv
 //@   alias dst
 //@   modifies spare(dst), qx, qpos, qn, qfs
 //@   allocates
+//@   replay-go for c := 0; c < 256; c++ { for _, pre := range []string{"", "a", "%", " "} { x := append([]byte(pre), byte(c)); want := ""; for _, b := range x { switch { case b == ' ': want += "+"; case QuotedArgShouldEscapeTable[b] != 0: want += fmt.Sprintf("%%%02X", b); default: want += string([]byte{b}) } }; if got := string(AppendQuotedArg(nil, x)); got != want { fmt.Printf("VCGO-VIOLATED AppendQuotedArg(%q) = %q, the token description gives %q\n", x, got, want); return } } }
 //@   ghostset-at-entry qn = len(src)
 //@   ghostset-at-entry qfs = len(src)
 //@   ghostset-at-entry qx = bytesOf(src)
